@@ -267,6 +267,7 @@ def run_main(argv, data, chunks, script=('quit',), on_read=None, interrupt_at=No
     user = ScriptedUser(rec, script)
     saved_stdin = sys.stdin
     saved_runner_os, saved_runner_sub = t['runner'].os, t['runner'].subprocess
+    saved_runner_threading = t['runner'].threading
     real_controller = t['Controller']
 
     def sim_open(path, *a, **kw):
@@ -282,6 +283,7 @@ def run_main(argv, data, chunks, script=('quit',), on_read=None, interrupt_at=No
         if run_shim is not None:
             t['runner'].os = run_shim.os_shim
             t['runner'].subprocess = run_shim.subprocess_shim
+            t['runner'].threading = run_shim.threading_shim
         if capture or tracker is not None:
             def capturing_controller(*a, **kw):
                 c = real_controller(*a, **kw)
@@ -320,6 +322,7 @@ def run_main(argv, data, chunks, script=('quit',), on_read=None, interrupt_at=No
         m.Controller = real_controller
         sys.stdin = saved_stdin
         t['runner'].os, t['runner'].subprocess = saved_runner_os, saved_runner_sub
+        t['runner'].threading = saved_runner_threading
         t['util'].set_color_output(False)
     return res
 
